@@ -176,6 +176,11 @@ type C16PipeCase struct {
 	Groups    []C16PGroup `json:"groups"`
 	Unlabeled int         `json:"unlabeled"`
 	Drain     bool        `json:"drain"`
+	// NoWeights (gateway): no backendRef declares a weight, which means 1 each
+	NoWeights bool `json:"noWeights,omitempty"`
+	// Reweight: after the first sync only the configured weights change (same pods, same endpoints) and the
+	// written weights are checked again: a weights-only change must not be mistaken for "nothing changed"
+	Reweight []int `json:"reweight,omitempty"`
 }
 
 func genC16Pipe(t *rapid.T) C16PipeCase {
@@ -197,6 +202,20 @@ func genC16Pipe(t *rapid.T) C16PipeCase {
 	}
 	if c.Mode != "gateway" {
 		c.Unlabeled = rapid.IntRange(0, 2).Draw(t, "unlabeled")
+		if chanceT(t, "reweight", 35) {
+			for range c.Groups {
+				c.Reweight = append(c.Reweight, rapid.SampledFrom([]int{0, 1, 2, 3, 10, 50, 100}).Draw(t, "w2"))
+			}
+		}
+	} else if chanceT(t, "noweights", 25) {
+		c.NoWeights = true
+		for i := range c.Groups {
+			c.Groups[i].Weight = 1
+		}
+	} else if chanceT(t, "reweight", 35) {
+		for range c.Groups {
+			c.Reweight = append(c.Reweight, rapid.SampledFrom([]int{0, 1, 2, 3, 10, 50, 100}).Draw(t, "w2"))
+		}
 	}
 	return c
 }
@@ -235,7 +254,11 @@ func c16PipeWorld(c C16PipeCase) ([]*world.Obj, map[string]string) {
 			}
 			objs = append(objs, ep)
 			port, w := 80, g.Weight
-			rule.Backends = append(rule.Backends, world.BackRef{Name: svc, Port: &port, Weight: &w})
+			ref := world.BackRef{Name: svc, Port: &port, Weight: &w}
+			if c.NoWeights {
+				ref.Weight = nil
+			}
+			rule.Backends = append(rule.Backends, ref)
 		}
 		objs = append(objs, &world.Obj{Kind: world.KHTTPRoute, NS: "a", Name: "r1", RT: &world.RouteSpec{
 			Parents: []world.ParentRef{{Name: "gw"}}, Hostnames: []string{"h1.local"}, Rules: []world.RouteRule{rule}}})
@@ -289,7 +312,6 @@ func c16PipeWorld(c C16PipeCase) ([]*world.Obj, map[string]string) {
 }
 
 func execC16Pipe(c C16PipeCase) *Failure {
-	st := getStats("C16")
 	objs, owner := c16PipeWorld(c)
 	s, steps, err := freshSim(ctlsim.Params{Gateway: c.Mode == "gateway"}, objs)
 	if err != nil {
@@ -299,6 +321,40 @@ func execC16Pipe(c C16PipeCase) *Failure {
 	if e := stepErrors(steps); e != nil {
 		return failf("C16:update-error", "update failed: %v", e)
 	}
+	f := c16PipeEval(c, s, owner, steps)
+	if f != nil || len(c.Reweight) != len(c.Groups) {
+		return f
+	}
+	// the same cluster with other weights only
+	c2 := c
+	c2.Groups = append([]C16PGroup{}, c.Groups...)
+	for i := range c2.Groups {
+		c2.Groups[i].Weight = c.Reweight[i]
+	}
+	objs2, _ := c16PipeWorld(c2)
+	var ops []world.Op
+	for _, o := range objs2 {
+		if o.Kind == world.KIngress || o.Kind == world.KHTTPRoute {
+			ops = append(ops, world.Op{Op: "update", Obj: o})
+		}
+	}
+	if err := s.Apply(ops); err != nil {
+		panic(err)
+	}
+	steps2 := s.Reconcile()
+	if e := stepErrors(steps2); e != nil {
+		return failf("C16:update-error", "update failed: %v", e)
+	}
+	if f := c16PipeEval(c2, s, owner, steps2); f != nil {
+		f.Msg = fmt.Sprintf("after the weights were changed from %v to %v: %s", c.Groups, c2.Groups, f.Msg)
+		return f
+	}
+	return nil
+}
+
+// c16PipeEval checks the weights written for the configuration c.
+func c16PipeEval(c C16PipeCase, s *ctlsim.Sim, owner map[string]string, steps []ctlsim.StepInfo) *Failure {
+	st := getStats("C16")
 	cfg, _ := hapcfg.LoadDir(s.CfgDir())
 	var be *hapcfg.Backend
 	for _, b := range cfg.Backends {
